@@ -123,7 +123,7 @@ pub fn check_packet(x: &[u8]) -> Result<String, (String, String)> {
         Some(0) => "first",
         _ => "middle",
     };
-    let mut types: Vec<u16> = d.msg.all_recs().map(|r| r.rtype).collect();
+    let mut types: Vec<u16> = d.msg.all_recs().map(|r| type_bucket(r.rtype)).collect();
     types.sort();
     types.dedup();
     Ok(format!("ptrs={} chain={} opt={} types={:?}", if ptrs >= 3 { "3+".to_string() } else { ptrs.to_string() }, dc.max_chain.min(17), optpos, types))
@@ -241,6 +241,12 @@ fn run(ctx: &mut Ctx, rep: &mut Report) {
         }
         let x = encode(m, Strategy::Plain);
         one(ctx, rep, &x, "L3");
+    });
+    all_types_packets(true, |i, p| {
+        let (ctx, rep) = unsafe { (&mut *ctxp, &mut *repp) };
+        if ctx.mine(i) {
+            one(ctx, rep, p, "types");
+        }
     });
     accepted_low_level(ctx.tier.pick(0, 1), |i, p| {
         let (ctx, rep) = unsafe { (&mut *ctxp, &mut *repp) };
